@@ -94,10 +94,20 @@ def run(ctx):
                 ctx.ob("E5.equation", fk, has_hash and has_pk and has_sig and has_neg and len(comps) == 2, "pairing input = %s (want {(H(msg,dst), pk), (sig, -G)} with exactly one negated factor)" % show(strip_sites(T_), 6), where=where(f, b), sample={"pairs": show(strip_sites(T_), 6)})
         if fk.endswith("aggregate_verify"):
             # final push((sig, -G)) and per-entry push((hash(msg,dst), pk))
-            pushes = [s for s in ev.sites.values() if s.callee[0] == "Vec::<T, A>::push"]
-            final = [s for s in pushes if any(x.op == "param" and x.a[1] == "sig" for x in subterms(s.args[1])) and any(x.op == "call" and B.cname(x) == "Neg::neg" for x in subterms(s.args[1]))]
+            # the closing pair (sig, -G), however it gets into the list (a push after the loop, `chain(once(..))`, ..): exactly
+            # one pair mentions the signature, and as a bilinear term it is -(sig (x) G) against the +(H(m) (x) pk) entries
+            from ..core import poly as PL
+            from . import equations as EQ
+
+            cand = {}
+            for s_ in ev.sites.values():
+                for a_ in s_.args:
+                    for x in subterms(strip_sites(a_)):
+                        if x.op == "agg" and x.a[0][0] == "tuple" and len(x.a[1]) == 2 and any(y.op == "param" and y.a[1] == "sig" for c_ in x.a[1] for y in subterms(c_)):
+                            cand[x] = True
+            final = [x for x in cand if PL.named(PL.bilinear([tuple(x.a[1])], EQ.std_atom())) == {("G", "sig"): -1}]
             entry = F.entry_builders(P, f)
-            ctx.ob("E5.equation", fk + "/final", len(final) == 1, "exactly one push of (sig, -G) after the loop (found %d)" % len(final), where=where(f))
+            ctx.ob("E5.equation", fk + "/final", len(final) == 1 and len(cand) == 1, "exactly one closing pair (sig, -G) (pairs mentioning sig: %d, of the form -(sig (x) G): %d)" % (len(cand), len(final)), where=where(f))
             ctx.ob("E5.equation", fk + "/entry", len(entry) == 1, "exactly one per-entry construction of (hash_to_point(msg,dst), pk) (found %d: %s)" % (len(entry), [e["mode"] for e in entry]), where=where(f))
             if entry:
                 h = [x for x in subterms(entry[0]["value"]) if x.op == "call" and B.cname(x) == "HashToPoint::hash_to_point"][0]
